@@ -12,10 +12,11 @@ Proved here:
 * `C15_87c_length`   – decoded length = bytes consumed (the C counter `nData`), at most 4, fixed by the two opcode bytes;
 * `C15_87c_no_hang`  – every decode reports a positive length or writes an error message (no case loops, none reports length 0
                        silently); `C15_87c_inv16_is_unknown`: the byte pairs that used to loop are listed as data;
-* `C15_87c_honest`   – `Honest` (every byte of a reported instruction lies in the image) under `Whole`, the same kind of
-                       hypothesis the 6800 needs, so that `C15_areas_inside` instantiates: `C15_87c_areas_inside`;
+* `C15_87c_honest`   – `Honest` (every byte of a reported instruction lies in the image) for every image in which address 0 is not
+                       loaded (no other hypothesis since the repair of `RetrieveCodeFromChunkList`), so that `C15_areas_inside`
+                       instantiates: `C15_87c_areas_inside`; `C15_87c_cut_instruction_not_reported`;
 * `C15_87c_jump_roundtrip_partial` / `C15_87c_jump_text_roundtrip` – jumps and calls against code87c800.c, on evaluated operands
-                       and on the printed text;
+                       and on the printed text; `C15_87c_callp_forward_label` – the first pass of `callp <label printed by dasl>`;
 * `C15_87c_numbers_have_suffix`, `C15_87c_symbol_is_last`, `C15_87c_reg16_names`, `C15_87c_returns_end_trace`,
   `C15_87c_dw_starts_with_digit` – the five repaired defects as positive facts about the model of the repaired code;
 * `C15_finding_87c_*` – the remaining oddities of deco87c800.c the model transcribes.
@@ -72,103 +73,46 @@ example : (M87C.raw [⟨0x1000, [0xe0, 0x12, 0x77, 0x55]⟩] false {} 0x1000 fal
 
 /-! ### the reported areas lie inside the image -/
 
-/-- the instruction that starts at `a` is whole: all bytes its opcode byte(s) ask for lie at `a…` below 64K inside the image
-(`RetrieveCodeFromChunkList` "completes" a request that runs past the end of a chunk from the same chunk, and `RetrieveData`
-continues at address 0 behind 0xFFFF, so a cut-off instruction is still reported with its full length) -/
-def M87C.Whole (img : Image) (a : Nat) : Prop :=
-  ∀ bs, retrieve img a 1 = some bs →
-    ∀ op2, (prefixLen ((bs.map UInt8.toNat).getD 0 0) = 0 ∨
-        ∃ bs2, retrieve img (a + prefixLen ((bs.map UInt8.toNat).getD 0 0)) 1 = some bs2 ∧ op2 = (bs2.map UInt8.toNat).getD 0 0) →
-      ∀ k, k < lenOf ((bs.map UInt8.toNat).getD 0 0) op2 → a + k < 0x10000 ∧ inImage img (a + k)
-
-/-- `Disassemble_87C800` at `a` reports only bytes of the image when the instruction at `a` is whole -/
-theorem C15_87c_honest_at (img : Image) (lower : Bool) (syms : Syms) (a : Nat) (ha : a ≠ 0x10000)
-    (h00 : retrieve img 0 1 = none) (hw : M87C.Whole img a) :
+/-- `Disassemble_87C800` at `a` reports only bytes of the image, provided the instruction it reports does not run through the end of
+the 64K address space (or address 0 is no byte of the image, so that nothing can be fetched through the wrap of `RetrieveData`).
+No assumption about the image: every byte of the reported length lies in a request `RetrieveData` answered (`raw_covered`), and
+`RetrieveCodeFromChunkList` answers a request only with bytes of the image (`retrieve_some`). -/
+theorem C15_87c_honest_at (img : Image) (lower : Bool) (syms : Syms) (a : Nat)
+    (hw : a + (M87C.disassemble img lower syms a false (-1)).1.len ≤ 0x10000 ∨ ¬ inImage img 0) :
     ∀ x, a ≤ x → x < a + (M87C.disassemble img lower syms a false (-1)).1.len → inImage img x := by
   intro x hx1 hx2
-  rw [(C15_87c_length img lower syms a).1] at hx2
-  rcases raw_spec img lower syms a with ⟨h0, _⟩ | ⟨ops, e, op, h1, hop, ⟨op2, _, hpre, hl⟩, _⟩
-  · omega
-  · rw [retrieveData_one img lower a ha] at h1
-    cases hr : retrieve img a 1 with
-    | none => simp [hr] at h1
-    | some bs =>
-      simp only [hr, Prod.mk.injEq, Option.some.injEq] at h1
-      have hops : op = (bs.map UInt8.toNat).getD 0 0 := by rw [hop, ← h1.1]
-      have hcond : prefixLen ((bs.map UInt8.toNat).getD 0 0) = 0 ∨
-          ∃ bs2, retrieve img (a + prefixLen ((bs.map UInt8.toNat).getD 0 0)) 1 = some bs2 ∧ op2 = (bs2.map UInt8.toNat).getD 0 0 := by
-        rw [← hops]
-        rcases hpre with h | ⟨o2, e2, hr2, ho2⟩
-        · exact Or.inl h
-        · right
-          by_cases hwrap : a + prefixLen op = 0x10000
-          · have := retrieveData_wrap img lower h00
-            rw [hwrap] at hr2
-            rw [hr2] at this
-            cases this
-          · rw [retrieveData_one img lower _ hwrap] at hr2
-            cases hr3 : retrieve img (a + prefixLen op) 1 with
-            | none => simp [hr3] at hr2
-            | some bs2 =>
-              simp only [hr3, Prod.mk.injEq, Option.some.injEq] at hr2
-              exact ⟨bs2, rfl, by rw [ho2, ← hr2.1]⟩
-      have := (hw bs hr op2 hcond (x - a) (by rw [← hops, ← hl]; omega)).2
-      have he : a + (x - a) = x := by omega
-      rw [he] at this; exact this
+  rw [(C15_87c_length img lower syms a).1] at hx2 hw
+  obtain ⟨y, n, ds, e, hr, hy1, hy2⟩ := raw_covered img lower syms a x hx1 hx2
+  have := retrieveData_inImage img lower y n ds e hr (x - y) (by omega)
+    (by rcases hw with hw | hw
+        · left; omega
+        · right; exact hw)
+  have he : y + (x - y) = x := by omega
+  rw [he] at this; exact this
 
-/-- the `Honest` predicate of the generic trace-loop theorems, for images in which no instruction-shaped byte sequence is cut off
-(and nothing can be fetched through the wrap at 0x10000) -/
-theorem C15_87c_honest (img : Image) (lower : Bool) (hw : ∀ a, M87C.Whole img a)
-    (h00 : retrieve img 0 1 = none) : Honest M87C.disassemble img lower := by
+/-- the `Honest` predicate of the generic trace-loop theorems holds for every image in which address 0 is not loaded.  The former
+hypothesis that every instruction-shaped byte sequence of the image is whole is gone. -/
+theorem C15_87c_honest (img : Image) (lower : Bool) (h00 : ¬ inImage img 0) : Honest M87C.disassemble img lower := by
   intro syms a x hx1 hx2
-  by_cases ha : a = 0x10000
-  · subst ha
-    exfalso
-    have h1 := retrieveData_wrap img lower h00
-    have hl : (M87C.disassemble img lower syms 0x10000 false (-1)).1.len = 0 := by
-      rw [(C15_87c_length img lower syms 0x10000).1]
-      unfold M87C.raw
-      cases hr : retrieveData img lower 0x10000 1 with
-      | mk o e =>
-        rw [hr] at h1
-        simp only at h1
-        subst h1
-        rfl
-    omega
-  · exact C15_87c_honest_at img lower syms a ha h00 (hw a) x hx1 hx2
+  exact C15_87c_honest_at img lower syms a (Or.inr h00) x hx1 hx2
 
-/-- for the TLCS-870 the reported code areas lie inside the loaded image if no instruction is cut off -/
+/-- for the TLCS-870 the reported code areas lie inside the loaded image if no traced instruction runs through the end of the 64K
+address space (or address 0 is not loaded) -/
 theorem C15_87c_areas_inside (img : Image) (lower : Bool) (fuel : Nat) (s0 : TState) (h0 : s0.code = []) (h1 : s0.traced = [])
-    (hw : ∀ a, M87C.Whole img a) (h00 : retrieve img 0 1 = none) :
-    ∀ x, area (traceLoop M87C.disassemble img lower fuel s0).1.code x → inImage img x :=
-  C15_areas_inside M87C.disassemble img lower fuel s0 h0 h1 (C15_87c_honest img lower hw h00)
+    (hw : (∀ e ∈ (traceLoop M87C.disassemble img lower fuel s0).1.traced, e.1 + e.2 ≤ 0x10000) ∨ ¬ inImage img 0) :
+    ∀ x, area (traceLoop M87C.disassemble img lower fuel s0).1.code x → inImage img x := by
+  intro x hx
+  have hA := (C15_areas M87C.disassemble img lower fuel s0 h0 h1).2.2 x
+  have hF := traceLoop_from M87C.disassemble img lower fuel s0 (by rw [h1]; intro e he; cases he)
+  obtain ⟨e, he, hx1, hx2⟩ := hA.mp hx
+  obtain ⟨syms, hlen, _⟩ := hF e he
+  refine C15_87c_honest_at img lower syms e.1 ?_ x hx1 (by rw [hlen]; exact hx2)
+  rcases hw with hw | hw
+  · left; rw [hlen]; exact hw e he
+  · right; exact hw
 
-/-- non-vacuity of the hypotheses of `C15_87c_honest`: the image `00 05` (nop, ret) at 1000h -/
-example : (∀ a, M87C.Whole [⟨0x1000, [0x00, 0x05]⟩] a) ∧ retrieve [⟨0x1000, [0x00, 0x05]⟩] 0 1 = none := by
-  refine ⟨?_, by decide +kernel⟩
-  intro a bs hbs op2 _ k hk
-  have ha : a = 0x1000 ∨ a = 0x1001 := by
-    have hin := M6800.retrieve_one_inImage _ a bs hbs
-    obtain ⟨c, hc, h1, h2⟩ := hin
-    simp at hc
-    subst hc
-    simp at h1 h2
-    omega
-  rcases ha with rfl | rfl
-  · have : retrieve [⟨0x1000, [0x00, 0x05]⟩] 0x1000 1 = some [0x00] := by decide +kernel
-    rw [this] at hbs; cases hbs
-    have h0 : ∀ o, lenOf ((List.map UInt8.toNat [0x00]).getD 0 0) o = 1 := by intro o; rfl
-    rw [h0] at hk
-    have : k = 0 := by omega
-    subst this
-    exact ⟨by omega, ⟨⟨0x1000, [0x00, 0x05]⟩, by simp, by simp, by simp⟩⟩
-  · have : retrieve [⟨0x1000, [0x00, 0x05]⟩] 0x1001 1 = some [0x05] := by decide +kernel
-    rw [this] at hbs; cases hbs
-    have h0 : ∀ o, lenOf ((List.map UInt8.toNat [0x05]).getD 0 0) o = 1 := by intro o; rfl
-    rw [h0] at hk
-    have : k = 0 := by omega
-    subst this
-    exact ⟨by omega, ⟨⟨0x1000, [0x00, 0x05]⟩, by simp, by simp, by simp⟩⟩
+/-- non-vacuity of the hypothesis of `C15_87c_honest`: the image `00 14 34` at 1000h – with an instruction cut off by its end -/
+example : ¬ inImage [⟨0x1000, [0x00, 0x14, 0x34]⟩] 0 := by simp [inImage]
 
 /-! ### round trip of the jump and call instructions against code87c800.c (partial) -/
 
@@ -295,7 +239,7 @@ theorem C15_87c_jump_roundtrip_partial (a op : Nat) (data : List Nat) (f : M87C.
       have ht : ¬ (0xff00 + d0 ≥ 65536) := by omega
       have hq : (0xff00 + d0) / 256 = 0xff := by omega
       have hm : (0xff00 + d0) % 256 = d0 := by omega
-      simp only [mk, encode, ht, if_false, hq, hm, h1]
+      simp only [mk, encode, callp, ht, if_false, hq, hm, h1]
       simp
     | callv k =>
       cases j <;> simp only [Bool.and_eq_true, beq_iff_eq, decide_eq_true_eq, Bool.false_eq_true] at hrest
@@ -433,6 +377,29 @@ theorem C15_87c_jump_ranges_sharp :
     A87C.encode 0x1000 (.jr none (0x1002 - 128)) = some [0xfb, 0x80] ∧ A87C.encode 0x1000 (.jr none (0x1002 - 129)) = none ∧
     A87C.encode 0x1000 (.callp 0xfe12) = none ∧ A87C.encode 0x1000 (.callp 0x0012) = some [0xfd, 0x12] := by decide +kernel
 
+/-- `callp <label>` where the label is defined further down (dasl prints the target of every `callp` as a label, `sub_FFxx`, which is
+a forward reference whenever the call lies below page FF): in the first pass the label has the value of the program counter and the
+first-pass-unknown flag; `DecodeCALLP` does not judge the page of such a value (repair of the known finding
+`callp-forward-label-87c`), so the first pass lays two bytes whatever the placeholder is, and the final pass – target in page FF –
+lays `FD lo`.  Without the flag a placeholder outside the pages 00/FF is rejected. -/
+theorem C15_87c_callp_forward_label (pc p lo : Nat) (hp : p < 0x10000) (hlo : lo < 256) :
+    A87C.encodeF true pc (.callp p) = some [0xfd, p % 256] ∧
+    A87C.encode pc (.callp (0xff00 + lo)) = some [0xfd, lo] ∧
+    (p / 256 ≠ 0xff → p / 256 ≠ 0 → A87C.encodeF false pc (.callp p) = none) := by
+  have ht : ¬ (0xff00 + lo ≥ 0x10000) := by omega
+  have hq : (0xff00 + lo) / 256 = 0xff := by omega
+  have hm : (0xff00 + lo) % 256 = lo := by omega
+  have hp' : ¬ (p ≥ 0x10000) := by omega
+  refine ⟨?_, ?_, ?_⟩
+  · simp [A87C.encodeF, A87C.callp, hp']
+  · simp [A87C.encode, A87C.callp, ht, hq, hm]
+  · intro h1 h2
+    simp [A87C.encodeF, A87C.callp, hp', h1, h2]
+
+/-- non-vacuity (the witness of the former finding): `callp sub` at 0FE00h with `sub` at 0FF40h -/
+example : A87C.encodeF true 0xfe00 (.callp 0xfe00) = some [0xfd, 0x00] ∧ A87C.encode 0xfe00 (.callp 0xff40) = some [0xfd, 0x40] ∧
+    A87C.encodeF false 0xfe00 (.callp 0xfe00) = none := by decide +kernel
+
 /-! ### the five repaired defects, as positive facts about the model of the repaired deco87c800.c -/
 
 /-- no case of `Disassemble_87C800`, `MemPrefix`, `RegPrefix` loops or reports length 0 silently: an instruction line has a
@@ -524,16 +491,21 @@ theorem C15_finding_87c_ld_hl_mem_no_successor :
 /-- the fall-through address is reduced with `% 0xffff` (not `& 0xffff`): an instruction ending at 0xFFFE continues at 0 -/
 theorem C15_finding_87c_fallthrough_wrap : (0xfffe + 1) % 0xffff = 0 ∧ (0xfffe + 1 : Nat) ≠ 0 := by decide
 
-/-- an instruction cut off by the end of the image is reported with its full length: image `00 14 34` at 1000h, the `ld wa,nn` at
-1001h is "completed" by re-reading, `CodeLen` = 3, so the code area ends at 1003h – outside the image (same mechanism as
-`dasl-instruction-cut-at-image-end` of the 6800); `Whole` excludes exactly this -/
-theorem C15_finding_87c_cut_instruction :
-    (M87C.disassemble [⟨0x1000, [0x00, 0x14, 0x34]⟩] false {} 0x1001 false (-1)).1.len = 3 ∧
-    ¬ inImage [⟨0x1000, [0x00, 0x14, 0x34]⟩] 0x1003 ∧ ¬ M87C.Whole [⟨0x1000, [0x00, 0x14, 0x34]⟩] 0x1001 := by
-  refine ⟨by decide +kernel, by simp [inImage], ?_⟩
-  intro hw
-  have h1 : retrieve [⟨0x1000, [0x00, 0x14, 0x34]⟩] 0x1001 1 = some [0x14] := by decide +kernel
-  have := (hw _ h1 0 (Or.inl (by decide +kernel)) 2 (by decide +kernel)).2
-  simp [inImage] at this
+/-- an instruction cut off by the end of the image is not reported: image `00 14 34` at 1000h, the `ld wa,nn` at 1001h asks for two
+operand bytes of which only one exists; the callback writes `cannot retrieve code` and reports length 0 (formerly `CodeLen` = 3 and a
+code area ending at 1003h, same mechanism as `dasl-instruction-cut-at-image-end` of the 6800) -/
+theorem C15_87c_cut_instruction_not_reported :
+    (M87C.disassemble [⟨0x1000, [0x00, 0x14, 0x34]⟩] false {} 0x1001 false (-1)).1.len = 0 ∧
+    (M87C.disassemble [⟨0x1000, [0x00, 0x14, 0x34]⟩] false {} 0x1001 false (-1)).2.2 = ["cannot retrieve code @ 0x1002"] ∧
+    ¬ inImage [⟨0x1000, [0x00, 0x14, 0x34]⟩] 0x1003 := by
+  refine ⟨by decide +kernel, by decide +kernel, by simp [inImage]⟩
+
+/-- deco87c800.c's own `RetrieveData` still continues at address 0 behind 0FFFFh (as deco68.c's does, finding
+`dasl-instruction-wraps-64k`): `14 34` at 0FFFEh with a byte at 0 gives a 3-byte `ld wa,nn`; hence the hypothesis of
+`C15_87c_honest_at` -/
+theorem C15_finding_87c_wrap_instruction :
+    (M87C.disassemble [⟨0, [0x12]⟩, ⟨0xfffe, [0x14, 0x34]⟩] false {} 0xfffe false (-1)).1.len = 3 ∧
+    ¬ inImage [⟨0, [0x12]⟩, ⟨0xfffe, [0x14, 0x34]⟩] 0x10000 := by
+  refine ⟨by decide +kernel, by simp [inImage]⟩
 
 end AslModel.Dis
